@@ -220,6 +220,20 @@ def w_diff(w, c):
         w.z(d.get(k, 0))
 
 
+def w_mp(w, c):
+    m = c.get("mp")
+    present = bool(m) and c["kind"] == "e2e"
+    w.b(present)
+    if not present:
+        m = {}
+    names = c.get("names") or []
+    w.zs([names.index(n) for n in names] if present else [])
+    err = m.get("err", "") or ("panic: " + m["panic"] if m.get("panic") else "")
+    w.z(0 if err == "" else 1 if err.startswith("incompatible sample types") else 2)
+    w.zs(m.get("typetoks"))
+    w.lst(m.get("samples"), lambda s: (w.zs(s.get("stack")), w.zs(s.get("values"))))
+
+
 def w_merge(w, c):
     w.lst(c["mrows"], lambda m: (w.u(m["p"]), w.u(m["f"]), w.u(m["i"]), w.z(m["s"]), w.z(m["t"])))
     w.lst(c["mfuncs"], lambda f: (w.u(f[0]), w.z(as_tok(f[1]))))
@@ -246,6 +260,7 @@ def case_wire(c):
     w.z(c.get("_mw", (0, 0))[0])
     w.z(c.get("_mw", (0, 0))[1])
     w_diff(w, c)
+    w_mp(w, c)
     return w.out
 
 
@@ -494,7 +509,15 @@ def run_corr(ck):
     ck.extra["diff_views_refused_not_positive"] = nrefused
     ck.obligation("correspondence: render_diff (assertPositive, synchronizeNames, mergeNodes, computeFlameGraphDiff, diffToFlameBearer) = "
                   "ProfService.RenderDiff on %d diff views (%d refused for a negative self value)" % (ndiff, nrefused),
-                  not dmm and ndiff > 0, "case ids %s" % dmm[:10])
+                  not dmm and ndiff > 0, "case ids (diff view or merged profile differs from the model) %s" % dmm[:10])
+    nmp = sum(1 for c in tcases if c["kind"] == "e2e" and c.get("mp"))
+    nmp_merged = sum(1 for c in tcases if c["kind"] == "e2e" and c.get("mp") and not c["mp"].get("err") and not c["mp"].get("panic") and c["mp"].get("samples"))
+    nmp_panic = [c["id"] for c in tcases if c["kind"] == "e2e" and c.get("mp") and c["mp"].get("panic")]
+    ck.extra["merge_profiles_runs"] = nmp
+    ck.extra["merge_profiles_with_samples"] = nmp_merged
+    ck.obligation("ProfService.MergeProfiles (pprof payload merge, profMerge_v2) ran on the stored payloads of %d cases without a panic "
+                  "(%d merged profiles with samples; compared with merge_profiles inside Coq as part of the correspondence)" % (nmp, nmp_merged),
+                  nmp > 0 and nmp_merged > 0 and not nmp_panic, "panic in cases %s: %s" % (nmp_panic[:10], [byid[i]["mp"]["panic"] for i in nmp_panic[:1]]))
     ck.obligation("city16 (model of city.CH64 on 16 bytes) = implementation on %d buffers" % len(hashes), not hm, "ids %s" % hm[:10])
     ck.obligation("correspondence: post_process / merge_trie / bfs = implementation on %d cases" % len(tcases), not mism,
                   "mismatching case ids: %s" % mism[:10])
